@@ -260,35 +260,35 @@ def judgeDoy (e : Dur) (ts : TS) (hex : String) : List (String × Bool) :=
 def handle (op : String) (args : List String) (impl : Impl) : Option Ans :=
   match op, args with
   -- ---------------------------------------------------------------- C08
-  | "greg", [y, mo, d, h, mi, s, ns, ts] | "from_greg", [y, mo, d, h, mi, s, ns, ts] => do
+  | "greg", [y, mo, d, h, mi, s, ns, ts] | "greg_from", [y, mo, d, h, mi, s, ns, ts] => do
     let f ← ints? [y, mo, d, h, mi, s, ns]; let ts ← TS.ofString? ts
-    build op f ts (op == "from_greg") impl
-  | "maybe_tai", [y, mo, d, h, mi, s, ns] | "from_greg_tai", [y, mo, d, h, mi, s, ns] => do
+    build op f ts (op == "greg_from") impl
+  | "greg_maybe_tai", [y, mo, d, h, mi, s, ns] | "greg_from_tai", [y, mo, d, h, mi, s, ns] => do
     let f ← ints? [y, mo, d, h, mi, s, ns]
-    build op f .TAI (op == "from_greg_tai") impl
-  | "maybe_utc", [y, mo, d, h, mi, s, ns] | "from_greg_utc", [y, mo, d, h, mi, s, ns] => do
+    build op f .TAI (op == "greg_from_tai") impl
+  | "greg_maybe_utc", [y, mo, d, h, mi, s, ns] | "greg_from_utc", [y, mo, d, h, mi, s, ns] => do
     let f ← ints? [y, mo, d, h, mi, s, ns]
-    build op f .UTC (op == "from_greg_utc") impl
-  | "at_midnight", [y, mo, d, ts] => do
+    build op f .UTC (op == "greg_from_utc") impl
+  | "greg_midnight", [y, mo, d, ts] => do
     let f ← ints? [y, mo, d]; let ts ← TS.ofString? ts
     build op (f ++ [0, 0, 0, 0]) ts true impl
-  | "at_noon", [y, mo, d, ts] => do
+  | "greg_noon", [y, mo, d, ts] => do
     let f ← ints? [y, mo, d]; let ts ← TS.ofString? ts
     build op (f ++ [12, 0, 0, 0]) ts true impl
-  | "tai_at_midnight", [y, mo, d] => do
+  | "greg_tai_midnight", [y, mo, d] => do
     let f ← ints? [y, mo, d]; build op (f ++ [0, 0, 0, 0]) .TAI true impl
-  | "tai_at_noon", [y, mo, d] => do
+  | "greg_tai_noon", [y, mo, d] => do
     let f ← ints? [y, mo, d]; build op (f ++ [12, 0, 0, 0]) .TAI true impl
-  | "utc_at_midnight", [y, mo, d] => do
+  | "greg_utc_midnight", [y, mo, d] => do
     let f ← ints? [y, mo, d]; build op (f ++ [0, 0, 0, 0]) .UTC true impl
-  | "utc_at_noon", [y, mo, d] => do
+  | "greg_utc_noon", [y, mo, d] => do
     let f ← ints? [y, mo, d]; build op (f ++ [12, 0, 0, 0]) .UTC true impl
-  | "hms", [y, mo, d, h, mi, s, ts] => do
+  | "greg_hms", [y, mo, d, h, mi, s, ts] => do
     let f ← ints? [y, mo, d, h, mi, s]; let ts ← TS.ofString? ts
     build op (f ++ [0]) ts true impl
-  | "tai_hms", [y, mo, d, h, mi, s] => do
+  | "greg_tai_hms", [y, mo, d, h, mi, s] => do
     let f ← ints? [y, mo, d, h, mi, s]; build op (f ++ [0]) .TAI true impl
-  | "utc_hms", [y, mo, d, h, mi, s] => do
+  | "greg_utc_hms", [y, mo, d, h, mi, s] => do
     let f ← ints? [y, mo, d, h, mi, s]; build op (f ++ [0]) .UTC true impl
   | "greg_valid", [y, mo, d, h, mi, s, ns] => do
     let f ← ints? [y, mo, d, h, mi, s, ns]
@@ -318,7 +318,7 @@ def handle (op : String) (args : List String) (impl : Impl) : Option Ans :=
              branch := "greg_month:" ++ eraTag y ++ ":" ++ (if Spec.isLeap y then "leap" else "common") ++ ":" ++ todTag h mi s ns }
     | _ => none
   -- ---------------------------------------------------------------- C09
-  | "display", [e] | "to_greg_str", [e] | "debug", [e] | "fmt_x", [e] | "fmt_X", [e] | "fmt_e", [e] | "fmt_E", [e] => do
+  | "display", [e] | "to_greg_str", [e] | "fmt_debug", [e] | "fmt_x", [e] | "fmt_X", [e] | "fmt_e", [e] | "fmt_E", [e] => do
     let (e, ts) ← parseEpoch? e
     textOp op e ts impl
   | "display_days", [e, n] => do
@@ -345,7 +345,7 @@ def handle (op : String) (args : List String) (impl : Impl) : Option Ans :=
              | .ok (y, mo, d, h, mi, s, ns) => "ok " ++ " ".intercalate ([y, mo, d, h, mi, s, ns].map toString)
              | .err => "err" | .panic => "panic"),
            spec := sp, branch := op ++ ":" ++ signTag e ts }
-  | "rt_tai", [e] | "rt_utc", [e] | "rt", [e] => do
+  | "greg_rt_tai", [e] | "greg_rt_utc", [e] | "greg_rt", [e] => do
     let (e, ts) ← parseEpoch? e
     let m : Res Dur := match Cal.computeGregorian e ts with
       | .ok (y, mo, d, h, mi, s, ns) => Cal.maybeFromGregorian y mo d h mi s ns ts
@@ -383,7 +383,7 @@ def handle (op : String) (args : List String) (impl : Impl) : Option Ans :=
       | .ok _, _ => "FAIL:decode"
       | .other w, _ => "FAIL:" ++ w
     pure { model := showResDur (Cal.durationInYear e ts), spec := sp, branch := "dur_in_year:" ++ signTag e ts }
-  | "day_of_year", [e] => do
+  | "doy", [e] => do
     let (e, ts) ← parseEpoch? e
     let sp := match impl with
       | .ok [hex] => verdict (judgeDoy e ts hex)
@@ -391,8 +391,8 @@ def handle (op : String) (args : List String) (impl : Impl) : Option Ans :=
       | .other w => "FAIL:" ++ w
     pure { model := (match Cal.durationInYear e ts with
              | .ok d => "ok " ++ hex16 (dayOfYearF d).toBits.toNat | .err => "err" | .panic => "panic"),
-           spec := sp, branch := "day_of_year:" ++ signTag e ts }
-  | "year_doy", [e] => do
+           spec := sp, branch := "doy:" ++ signTag e ts }
+  | "ydoy", [e] => do
     let (e, ts) ← parseEpoch? e
     let sp := match impl, specDate e ts with
       | .ok [y, hex], some (dt, _) => verdict ([("year", y.toInt? == some dt.y)] ++ judgeDoy e ts hex)
@@ -401,7 +401,7 @@ def handle (op : String) (args : List String) (impl : Impl) : Option Ans :=
     pure { model := (match Cal.year e ts, Cal.durationInYear e ts with
              | .ok y, .ok d => "ok " ++ toString y ++ " " ++ hex16 (dayOfYearF d).toBits.toNat
              | .panic, _ => "panic" | _, .panic => "panic" | _, _ => "err"),
-           spec := sp, branch := "year_doy:" ++ signTag e ts }
+           spec := sp, branch := "ydoy:" ++ signTag e ts }
   | _, _ => none
 
 end Hifi.Drive.Calendar
